@@ -194,6 +194,22 @@ func evalPath(node *jparse.PathNode, data reflect.Value, env *environment) (refl
 		_, isVar = step0.Expr.(*jparse.VariableNode)
 	}
 
+	// Predicates stacked on a variable are nested predicate
+	// nodes and an order-by on a variable is a sort node around
+	// it: the path is still anchored at the variable's value.
+	for head := node.Steps[0]; !isVar && head != nil; {
+		switch h := head.(type) {
+		case (*jparse.PredicateNode):
+			head = h.Expr
+		case (*jparse.SortNode):
+			head = h.Expr
+		case (*jparse.VariableNode):
+			isVar = true
+		default:
+			head = nil
+		}
+	}
+
 	// An array taken from the input can be wrapped in an
 	// interface value. Unwrap it before its items are visited.
 	if jtypes.IsArray(data) {
